@@ -745,43 +745,43 @@ namespace sqf { namespace parser { namespace assembly { namespace bison  {
 
   case 15:
 #line 132 "parser.y" // lalr1.cc:859
-    { yylhs.value.as< ::sqf::parser::assembly::bison::astnode > () = ::sqf::parser::assembly::bison::astnode{ astkind::ASSIGN_TO, yystack_[1].value.as< tokenizer::token > () }; yylhs.value.as< ::sqf::parser::assembly::bison::astnode > ().append(::sqf::parser::assembly::bison::astnode{ astkind::STRING, yystack_[1].value.as< tokenizer::token > () }); }
+    { yylhs.value.as< ::sqf::parser::assembly::bison::astnode > () = ::sqf::parser::assembly::bison::astnode{ astkind::ASSIGN_TO, yystack_[1].value.as< tokenizer::token > () }; yylhs.value.as< ::sqf::parser::assembly::bison::astnode > ().append(::sqf::parser::assembly::bison::astnode{ astkind::STRING, yystack_[0].value.as< tokenizer::token > () }); }
 #line 750 "parser.tab.cc" // lalr1.cc:859
     break;
 
   case 16:
 #line 134 "parser.y" // lalr1.cc:859
-    { yylhs.value.as< ::sqf::parser::assembly::bison::astnode > () = ::sqf::parser::assembly::bison::astnode{ astkind::ASSIGN_TO_LOCAL, yystack_[1].value.as< tokenizer::token > () }; yylhs.value.as< ::sqf::parser::assembly::bison::astnode > ().append(::sqf::parser::assembly::bison::astnode{ astkind::STRING, yystack_[1].value.as< tokenizer::token > () });  }
+    { yylhs.value.as< ::sqf::parser::assembly::bison::astnode > () = ::sqf::parser::assembly::bison::astnode{ astkind::ASSIGN_TO_LOCAL, yystack_[1].value.as< tokenizer::token > () }; yylhs.value.as< ::sqf::parser::assembly::bison::astnode > ().append(::sqf::parser::assembly::bison::astnode{ astkind::STRING, yystack_[0].value.as< tokenizer::token > () });  }
 #line 756 "parser.tab.cc" // lalr1.cc:859
     break;
 
   case 17:
 #line 136 "parser.y" // lalr1.cc:859
-    { yylhs.value.as< ::sqf::parser::assembly::bison::astnode > () = ::sqf::parser::assembly::bison::astnode{ astkind::GET_VARIABLE, yystack_[1].value.as< tokenizer::token > () }; yylhs.value.as< ::sqf::parser::assembly::bison::astnode > ().append(::sqf::parser::assembly::bison::astnode{ astkind::STRING, yystack_[1].value.as< tokenizer::token > () });  }
+    { yylhs.value.as< ::sqf::parser::assembly::bison::astnode > () = ::sqf::parser::assembly::bison::astnode{ astkind::GET_VARIABLE, yystack_[1].value.as< tokenizer::token > () }; yylhs.value.as< ::sqf::parser::assembly::bison::astnode > ().append(::sqf::parser::assembly::bison::astnode{ astkind::STRING, yystack_[0].value.as< tokenizer::token > () });  }
 #line 762 "parser.tab.cc" // lalr1.cc:859
     break;
 
   case 18:
 #line 138 "parser.y" // lalr1.cc:859
-    { yylhs.value.as< ::sqf::parser::assembly::bison::astnode > () = ::sqf::parser::assembly::bison::astnode{ astkind::CALL_UNARY, yystack_[1].value.as< tokenizer::token > () }; yylhs.value.as< ::sqf::parser::assembly::bison::astnode > ().append(::sqf::parser::assembly::bison::astnode{ astkind::IDENT, yystack_[1].value.as< tokenizer::token > () }); }
+    { yylhs.value.as< ::sqf::parser::assembly::bison::astnode > () = ::sqf::parser::assembly::bison::astnode{ astkind::CALL_UNARY, yystack_[1].value.as< tokenizer::token > () }; yylhs.value.as< ::sqf::parser::assembly::bison::astnode > ().append(::sqf::parser::assembly::bison::astnode{ astkind::IDENT, yystack_[0].value.as< tokenizer::token > () }); }
 #line 768 "parser.tab.cc" // lalr1.cc:859
     break;
 
   case 19:
 #line 140 "parser.y" // lalr1.cc:859
-    { yylhs.value.as< ::sqf::parser::assembly::bison::astnode > () = ::sqf::parser::assembly::bison::astnode{ astkind::CALL_NULAR, yystack_[1].value.as< tokenizer::token > () }; yylhs.value.as< ::sqf::parser::assembly::bison::astnode > ().append(::sqf::parser::assembly::bison::astnode{ astkind::IDENT, yystack_[1].value.as< tokenizer::token > () }); }
+    { yylhs.value.as< ::sqf::parser::assembly::bison::astnode > () = ::sqf::parser::assembly::bison::astnode{ astkind::CALL_NULAR, yystack_[1].value.as< tokenizer::token > () }; yylhs.value.as< ::sqf::parser::assembly::bison::astnode > ().append(::sqf::parser::assembly::bison::astnode{ astkind::IDENT, yystack_[0].value.as< tokenizer::token > () }); }
 #line 774 "parser.tab.cc" // lalr1.cc:859
     break;
 
   case 20:
 #line 142 "parser.y" // lalr1.cc:859
-    { yylhs.value.as< ::sqf::parser::assembly::bison::astnode > () = ::sqf::parser::assembly::bison::astnode{ astkind::CALL_BINARY, yystack_[1].value.as< tokenizer::token > () }; yylhs.value.as< ::sqf::parser::assembly::bison::astnode > ().append(::sqf::parser::assembly::bison::astnode{ astkind::IDENT, yystack_[1].value.as< tokenizer::token > () }); }
+    { yylhs.value.as< ::sqf::parser::assembly::bison::astnode > () = ::sqf::parser::assembly::bison::astnode{ astkind::CALL_BINARY, yystack_[1].value.as< tokenizer::token > () }; yylhs.value.as< ::sqf::parser::assembly::bison::astnode > ().append(::sqf::parser::assembly::bison::astnode{ astkind::IDENT, yystack_[0].value.as< tokenizer::token > () }); }
 #line 780 "parser.tab.cc" // lalr1.cc:859
     break;
 
   case 21:
 #line 144 "parser.y" // lalr1.cc:859
-    { yylhs.value.as< ::sqf::parser::assembly::bison::astnode > () = ::sqf::parser::assembly::bison::astnode{ astkind::PUSH, yystack_[1].value.as< tokenizer::token > () }; yylhs.value.as< ::sqf::parser::assembly::bison::astnode > ().append(yystack_[1].value.as< tokenizer::token > ()); }
+    { yylhs.value.as< ::sqf::parser::assembly::bison::astnode > () = ::sqf::parser::assembly::bison::astnode{ astkind::PUSH, yystack_[1].value.as< tokenizer::token > () }; yylhs.value.as< ::sqf::parser::assembly::bison::astnode > ().append(yystack_[0].value.as< ::sqf::parser::assembly::bison::astnode > ()); }
 #line 786 "parser.tab.cc" // lalr1.cc:859
     break;
 
